@@ -412,7 +412,8 @@ theorem reserved_rule_iff_spec (s : SchemaNames.SchemaNames) :
 /-- **Values of correct type** (arguments of directives applied in the schema; default values once they are
     checked): `value_of_correct_type` pushes no diagnostic for a constant iff the constant coerces to the type
     (§3.5 scalars with the `i32` and finite-`f64` ranges, §3.9, §3.10 with §5.6.2–4, §3.11 incl. single-item
-    coercion, §3.12; custom scalars: `Spec/ValueCheck.lean`, `CustomOK`). -/
+    coercion, §3.12; a custom scalar accepts every constant whose object literals have unique fields at every depth,
+    `LiteralOK`). -/
 theorem value_rule_iff_spec (S : ValueCheck.Schema) (hS : ValueCheck.Spec.Closed S) (ty : ValueCheck.Ty)
     (hty : ValueCheck.Spec.Defined S ty) (v : ValueCheck.Value) :
     ValueCheck.check S [] ty v = [] ↔ ValueCheck.Spec.Coerces S ty v :=
